@@ -145,10 +145,16 @@ func hbtTitle(kind string) string {
 // of the previous driver call, is not counted)
 func hbtGoroutines() int {
 	n := runtime.NumGoroutine()
-	for i := 0; i < 6; i++ {
+	// until the count has not fallen for a while (longer when the machine is busy: a goroutine that has been told to
+	// end may wait for a processor)
+	quiet := 6 + int(h.Lateness(time.Now().Add(-20*time.Millisecond), time.Now())/(100*time.Microsecond))
+	if quiet > 200 {
+		quiet = 200
+	}
+	for i := 0; i < quiet; i++ {
 		time.Sleep(30 * time.Microsecond)
 		if m := runtime.NumGoroutine(); m < n {
-			n = m
+			n, i = m, 0
 		}
 	}
 	return n
@@ -209,7 +215,7 @@ func (x *hbtRun) compare(op, kind string, quiescentWant int, lines ...string) bo
 	if x.d != nil {
 		want, _ = strconv.Atoi(hbtField(ans, "streams"))
 	}
-	n := x.streams(want, 300*time.Millisecond)
+	n := x.streams(want, 2*time.Second)
 	if want < 0 {
 		time.Sleep(5 * time.Millisecond)
 		n = x.streams(-1, 0)
@@ -221,7 +227,7 @@ func (x *hbtRun) compare(op, kind string, quiescentWant int, lines ...string) bo
 	// SPEC, no model: with no operation in flight there is at most one stream, and it runs iff the manager says so
 	if x.live() == 0 && !x.tainted {
 		if n > 1 {
-			n = x.streams(1, 10*time.Millisecond) // a goroutine that is only slow to exit is not a second stream
+			n = x.streams(1, 10*time.Millisecond+4*h.Lateness(time.Now().Add(-50*time.Millisecond), time.Now())) // a goroutine that is only slow to exit is not a second stream
 		}
 		// a surplus stream after two start operations overlapped is the "two concurrent streams" clause; the same
 		// symptom without overlapping starts is something else and gets a key of its own
@@ -829,6 +835,7 @@ func hbtMulti(periods []time.Duration, dur time.Duration) (fails [][2]string, de
 			return
 		}
 	}
+	t0 := time.Now()
 	time.Sleep(dur)
 	for _, e := range ents {
 		e.HeartbeatManager().StopHeartbeat()
@@ -866,14 +873,18 @@ func hbtMulti(periods []time.Duration, dur time.Duration) (fails [][2]string, de
 				fail("C16/refresh-not-notified-once", fmt.Sprintf("subscriber %d received from entity %d (%s) the counters %v; the entity's heartbeat counter stands at %d (every refresh 1..%d is to be notified once, labelled with its own entity)", p, i+1, src, got, last, last))
 			}
 			if want := uint64(dur / (periods[i] + periods[i]/2)); last < want {
-				fail("C16/period-exceeds-timeout", fmt.Sprintf("entity %d refreshed %d times in %v", i+1, last, dur))
+				if late := h.Lateness(t0, t0.Add(dur)); late*4 >= periods[i]/2 {
+					desc += fmt.Sprintf(" [entity %d refreshed %d times in %v: not judged, reference %v late]", i+1, last, dur, late)
+				} else {
+					fail("C16/period-exceeds-timeout", fmt.Sprintf("entity %d refreshed %d times in %v", i+1, last, dur))
+				}
 			}
 		}
 		for src, got := range per {
 			fail("C16/refresh-not-notified-once", fmt.Sprintf("subscriber %d received heartbeats labelled %s, which is no heartbeat feature of the device: counters %v", p, src, got))
 		}
 	}
-	desc = fmt.Sprintf("%s: %d notifications in %v", what, total, dur)
+	desc = fmt.Sprintf("%s: %d notifications in %v", what, total, dur) + desc
 	return
 }
 
@@ -897,7 +908,8 @@ type hbtEv struct {
 // StopHeartbeat / RemoveEntity - whatever the device's list says about the entity - at most one more refresh and
 // IsHeartbeatRunning false. attach = the entity is added to the device (and two peers subscribe) before the script.
 // Returns the failures (key, detail), the median refresh gap, the announced timeout and a description.
-func hbtRealtime(T time.Duration, ticks int, attach bool, script []string) (fails [][2]string, median time.Duration, announced time.Duration, desc string) {
+func hbtRealtime(T time.Duration, ticks int, attach bool, script []string) (fails [][2]string, median time.Duration, announced time.Duration, desc string, indet []string) {
+	h.JitterStart()
 	P := T
 	if T > 2*time.Second {
 		P = T - 2*time.Second
@@ -1058,6 +1070,19 @@ func hbtRealtime(T time.Duration, ticks int, attach bool, script []string) (fail
 	if firstRemove.IsZero() {
 		firstRemove = end
 	}
+	// a real-time verdict counts only if the harness's reference goroutine (own 2 ms ticker) kept time over the same
+	// window: its worst lateness there must stay below a quarter of the margin; the bound itself is widened by twice
+	// that lateness. Otherwise the verdict is indeterminate (machine under load), not a failure.
+	rtLate := func(a, b time.Time) time.Duration {
+		return h.Lateness(a.Add(-5*time.Millisecond), b.Add(5*time.Millisecond))
+	}
+	rtFail := func(a, b time.Time, key, detail string) {
+		if late := rtLate(a, b); late*4 >= slack {
+			indet = append(indet, fmt.Sprintf("%s: %s [not judged: the reference goroutine ran %v late in that window, margin %v]", what, detail, late, slack))
+		} else {
+			fail(key, fmt.Sprintf("%s (reference goroutine at most %v late in that window)", detail, late))
+		}
+	}
 	// judge a sequence of refresh instants against the windows
 	var gapsAll []time.Duration
 	judge := func(who string, times []time.Time, ctrs []uint64, wdws []window, collect bool) {
@@ -1068,8 +1093,8 @@ func hbtRealtime(T time.Duration, ticks int, attach bool, script []string) (fail
 					in = append(in, i)
 				}
 			}
-			if len(in) == 0 || times[in[0]].Sub(wd.from) > T+slack {
-				fail("C16/period-exceeds-timeout", fmt.Sprintf("%s: no refresh within %v after operation %d (%s) returned", who, T+slack, wd.n, wd.after))
+			if lim := T + slack + 2*rtLate(wd.from, wd.from.Add(T+slack)); len(in) == 0 || times[in[0]].Sub(wd.from) > lim {
+				rtFail(wd.from, wd.from.Add(lim), "C16/period-exceeds-timeout", fmt.Sprintf("%s: no refresh within %v after operation %d (%s) returned", who, lim, wd.n, wd.after))
 				continue
 			}
 			for k := 1; k < len(in); k++ {
@@ -1077,12 +1102,12 @@ func hbtRealtime(T time.Duration, ticks int, attach bool, script []string) (fail
 				if collect {
 					gapsAll = append(gapsAll, g)
 				}
-				if g > T+slack {
-					fail("C16/period-exceeds-timeout", fmt.Sprintf("%s: %v between the refreshes %d and %d (timeout %v + slack %v)", who, g, ctrs[in[k-1]], ctrs[in[k]], T, slack))
+				if g > T+slack+2*rtLate(times[in[k-1]], times[in[k]]) {
+					rtFail(times[in[k-1]], times[in[k]], "C16/period-exceeds-timeout", fmt.Sprintf("%s: %v between the refreshes %d and %d (timeout %v + slack %v)", who, g, ctrs[in[k-1]], ctrs[in[k]], T, slack))
 				}
 			}
-			if wd.to.Sub(times[in[len(in)-1]]) > T+slack {
-				fail("C16/period-exceeds-timeout", fmt.Sprintf("%s: no refresh in the last %v of the running span that began with operation %d (%s)", who, T+slack, wd.n, wd.after))
+			if wd.to.Sub(times[in[len(in)-1]]) > T+slack+2*rtLate(times[in[len(in)-1]], wd.to) {
+				rtFail(times[in[len(in)-1]], wd.to, "C16/period-exceeds-timeout", fmt.Sprintf("%s: no refresh in the last %v of the running span that began with operation %d (%s)", who, T+slack, wd.n, wd.after))
 			}
 		}
 	}
@@ -1176,8 +1201,16 @@ func hbtRealtime(T time.Duration, ticks int, attach bool, script []string) (fail
 	}
 	// "with a period not exceeding the announced timeout": the typical gap, not only the worst one (the announced
 	// value is the configured one truncated to 0.1 s; the period must follow the announcement)
-	if tol := 10*time.Millisecond + T/100; len(gaps) >= 3 && median > T+tol {
-		fail("C16/period-exceeds-timeout", fmt.Sprintf("the median of %d gaps between refreshes inside running spans is %v, the data announces the timeout %v (tolerance %v)", len(gaps), median, T, tol))
+	// (the median is insensitive to single late refreshes; its tolerance is 10 ms + 1 % + the reference's own median
+	// lateness, and it is judged only if the reference's 99th percentile stayed below the tolerance)
+	jp50, jp99, _, _ := h.JitterStats()
+	if tol := 10*time.Millisecond + T/100 + 2*jp50; len(gaps) >= 3 && median > T+tol {
+		detail := fmt.Sprintf("the median of %d gaps between refreshes inside running spans is %v, the data announces the timeout %v (tolerance %v)", len(gaps), median, T, tol)
+		if jp99 >= tol {
+			indet = append(indet, fmt.Sprintf("%s: %s [not judged: 99th percentile of the reference lateness %v]", what, detail, jp99))
+		} else {
+			fail("C16/period-exceeds-timeout", detail)
+		}
 	}
 	announced = T
 	max := time.Duration(0)
@@ -1203,7 +1236,7 @@ func hbtHeld(T time.Duration) (fails [][2]string) {
 	w.g0 = hbtGoroutines()
 	streams := func(want int) int {
 		n := 0
-		for t0 := time.Now(); time.Since(t0) < 200*time.Millisecond; {
+		for t0 := time.Now(); time.Since(t0) < 2*time.Second; {
 			if n = runtime.NumGoroutine() - w.g0; n == want {
 				break
 			}
@@ -1311,7 +1344,7 @@ func hbtHammer(rng *rand.Rand, goroutines, opsEach int) (panics []string, stream
 		panics = append(panics, fmt.Sprint(pan))
 	}
 	running = w.hm.IsHeartbeatRunning()
-	for t0 := time.Now(); time.Since(t0) < 100*time.Millisecond; {
+	for t0 := time.Now(); time.Since(t0) < 2*time.Second; {
 		if streamsLeft = runtime.NumGoroutine() - w.g0; streamsLeft <= 0 {
 			break
 		}
@@ -1327,6 +1360,7 @@ func TestHeartbeat(t *testing.T) {
 	defer r.Write()
 	defer hbtGuard(r, "C16")()
 	defer hbtWatchdog("TestHeartbeat", time.Duration(h.Scale(6, 25))*time.Minute)()
+	h.JitterStart()
 	h.InstallYield()
 	d := h.StartDriver("drv_hb")
 	defer d.Close()
@@ -1358,7 +1392,11 @@ func TestHeartbeat(t *testing.T) {
 				attach = f[3] == "attached"
 				script = strings.Split(f[4], ",")
 			}
-			fails, _, _, desc := hbtRealtime(time.Duration(ms)*time.Millisecond, ticks, attach, script)
+			fails, _, _, desc, ind := hbtRealtime(time.Duration(ms)*time.Millisecond, ticks, attach, script)
+			for try := 1; try < 3 && len(fails) == 0 && len(ind) > 0; try++ {
+				fails, _, _, desc, ind = hbtRealtime(time.Duration(ms)*time.Millisecond, ticks, attach, script)
+			}
+			r.Info["indeterminate_under_load"] = ind
 			r.Eval("realtime", "")
 			for _, f := range fails {
 				r.SpecFail(f[0], ops, f[1])
@@ -1472,7 +1510,7 @@ func TestHeartbeat(t *testing.T) {
 	}
 	var wg sync.WaitGroup
 	var bmu sync.Mutex
-	var descs, flakes []string
+	var descs, flakes, indeterminate []string
 	// several entities with heartbeats side by side, two subscribers on each
 	multis := [][]time.Duration{{100 * time.Millisecond, 100 * time.Millisecond, 100 * time.Millisecond}, {200 * time.Millisecond, 300 * time.Millisecond}}
 	if h.Tier() == "thorough" {
@@ -1513,17 +1551,23 @@ func TestHeartbeat(t *testing.T) {
 		go func(p rt) {
 			defer wg.Done()
 			T := time.Duration(p.ms) * time.Millisecond
-			fails, median, announced, desc := hbtRealtime(T, p.ticks, p.attach, p.script)
-			if len(fails) > 0 {
-				// timer-dependent: once more in a fresh world before it counts
-				f2, m2, a2, d2 := hbtRealtime(T, p.ticks, p.attach, p.script)
+			// a world with a failure, or with a real-time verdict that could not be judged because the machine did not
+			// keep time (jitter witness), is run again in a fresh world, up to three times in all
+			fails, median, announced, desc, ind := hbtRealtime(T, p.ticks, p.attach, p.script)
+			for try := 1; try < 3 && (len(fails) > 0 || len(ind) > 0); try++ {
 				bmu.Lock()
-				flakes = append(flakes, fmt.Sprintf("first run of timeout %v: %v", T, fails))
+				if len(fails) > 0 {
+					flakes = append(flakes, fmt.Sprintf("run %d of timeout %v: %v", try, T, fails))
+				}
 				bmu.Unlock()
-				fails, median, announced, desc = f2, m2, a2, d2
+				fails, median, announced, desc, ind = hbtRealtime(T, p.ticks, p.attach, p.script)
 			}
 			bmu.Lock()
 			defer bmu.Unlock()
+			if len(ind) > 0 {
+				indeterminate = append(indeterminate, ind...)
+				r.Eval("realtime:indeterminate-under-load", "")
+			}
 			descs = append(descs, desc)
 			op := []string{fmt.Sprintf("realtime %d %d %s %s", p.ms, p.ticks, map[bool]string{true: "attached", false: "detached"}[p.attach], strings.Join(p.script, ","))}
 			for _, f := range fails {
@@ -1539,7 +1583,9 @@ func TestHeartbeat(t *testing.T) {
 					r.Traces++
 				}
 			} else if diff := median - wantD; diff > 20*time.Millisecond+wantD/10 || -diff > 20*time.Millisecond+wantD/10 {
-				if len(fails) == 0 {
+				if _, p99, _, _ := h.JitterStats(); p99 >= 20*time.Millisecond {
+					indeterminate = append(indeterminate, fmt.Sprintf("%s: median gap %v vs model period %v not compared (reference lateness p99 %v)", desc, median, wantD, p99))
+				} else if len(fails) == 0 {
 					r.Mismatch(op, fmt.Sprintf("median refresh gap %v", median), fmt.Sprintf("period %v", wantD), "refresh period for the announced timeout")
 				}
 			} else if len(fails) == 0 {
@@ -1551,6 +1597,12 @@ func TestHeartbeat(t *testing.T) {
 	sort.Strings(descs)
 	r.Info["realtime"] = descs
 	r.Info["timing_dependent_failures_first_run"] = flakes
+	if len(indeterminate) > 8 {
+		indeterminate = append(indeterminate[:8], fmt.Sprintf("... and %d more", len(indeterminate)-8))
+	}
+	r.Info["indeterminate_under_load"] = indeterminate
+	jp50, jp99, jmax, jn := h.JitterStats()
+	r.Info["jitter_witness"] = fmt.Sprintf("reference goroutine with a 2 ms ticker: %d wake-ups, lateness median %v, 99th percentile %v, max %v", jn, jp50, jp99, jmax)
 
 	// ----- part C: unparked concurrency (outcome depends on the scheduler; any panic or surviving stream counts)
 	hr := h.Rng(1601)
